@@ -20,8 +20,11 @@ def validate_lazycache(traces):
     d = tlc.new_scratch('tr')
     path = os.path.join(d, 'traces.json')
     with open(path, 'w') as f:
-        json.dump([dict(formulas=t['formulas'], init=t['init'], events=t['events'])
-                   for t in traces], f)
+        # (LazyCache knows "has a value" / "has none": the engine's two kinds of
+        # "none" -- reset, or read as None from stored results -- are one here)
+        text = json.dumps([dict(formulas=t['formulas'], init=t['init'], events=t['events'])
+                           for t in traces])
+        f.write(text.replace('["?!"]', '["?"]'))
     res = tlc.run('TraceLazyCache', 'TraceLazyCache.cfg', workers=1,
                   env=dict(TRACE_FILE=path), deadlock=True, timeout=1800, heap='4g')
     bad = [i - 1 for i in rejected_ids(res)]
